@@ -80,5 +80,5 @@ func verifC14Histories(h int) {
 }
 
 func VerifC14_Histories() {
-	verifrt.Atomic(func() { verifC14Histories(verifrt.Bound("steps", 3, 4)) })
+	verifrt.Atomic(func() { verifC14Histories(verifrt.Bound("steps", 2, 3)) })
 }
